@@ -105,6 +105,12 @@ def plan_c07(tier, seed, index):
                     timeout=cap, mem_gb=12, unwindset=us, core=core,
                     functions=["fst::raw::counting_writer::CountingWriter::write", "std::io::Write::write_all (default)", "fst::raw::crc32::CheckSummer::update"],
                     bounds="buffer length %d, <=%d Interrupted, every acceptance schedule" % (l, i)))
+    P.append(ob("c07_sink::c07_encoder_capped_t1", "node encoder (1 symbolic transition) into a sink accepting at most `cap` bytes per call (cap symbolic 1..8): same bytes as into an all-accepting sink",
+                timeout=2400, mem_gb=12, functions=NODE_ENC, bounds="T=1, cap 1..8", core=False,
+                unwindset=[["write_all", 9], ["CapSink.*write|ArraySink.*write", 9], ["pack_uint_in", 9], ["encoder_capped", 25]]))
+    if tier == "thorough":
+        P.append(ob("c07_sink::c07_encoder_capped_t2", "as above, 2 transitions", timeout=5400, mem_gb=16, functions=NODE_ENC, bounds="T=2", core=False,
+                    unwindset=[["write_all", 9], ["CapSink.*write|ArraySink.*write", 9], ["pack_uint_in", 9], ["encoder_capped", 25]]))
     P.append(ob("c07_sink::c07_primitives_le_bytes", "io_write_u64_le / io_write_u32_le / pack_uint_in hand write_all exactly the little-endian bytes",
                 timeout=900, mem_gb=8, functions=["fst::bytes::io_write_u64_le", "fst::bytes::io_write_u32_le", "fst::bytes::pack_uint_in"],
                 bounds="all u64, all legal widths", covers_required=False))
@@ -120,12 +126,15 @@ def plan_c08(tier, seed, index):
     light = dict(timeout=900, mem_gb=8, functions=CRC_FNS)
     P.append(ob("c08_crc::c08_byte_step_eq_reference", "1-byte update from any state == bitwise CRC-32C", bounds="all (u32,u8)", **light))
     P.append(ob("c08_crc::c08_empty_update_is_identity", "empty update is the identity; new() starts at 0", bounds="all u32", **light))
-    tails = [2, 3, 4, 7] + ([8, 15] if tier == "thorough" else [])
+    tails = [2, 3, 4] + ([7, 8, 15] if tier == "thorough" else [])
     for l in tails:
         P.append(ob("c08_crc::c08_tail_%d" % l, "%d-byte update from any state == reference fold" % l, bounds="all states, all %d-byte strings" % l,
                     timeout=2400, mem_gb=8, functions=CRC_FNS, core=(l <= 4)))
-    P.append(ob("c08_crc::c08_block16_affine", "the real slice-by-16 block step is GF(2)-affine in (state, 16 data bytes)", bounds="all triples",
-                timeout=2400, mem_gb=12, functions=CRC_FNS))
+    P.append(ob("c08_crc::c08_block16_affine2", "the real slice-by-16 block step is GF(2)-affine in (state, 16 data bytes): F(x^y)^F(0)==F(x)^F(y)", bounds="all pairs",
+                timeout=1500, mem_gb=12, functions=CRC_FNS, core=False))
+    if tier == "thorough":
+        P.append(ob("c08_crc::c08_block16_affine", "the same in the three-operand form", bounds="all triples",
+                    timeout=5400, mem_gb=12, functions=CRC_FNS, core=False))
     P.append(ob("c08_crc::c08_block16_basis_agree", "block step == 16 reference byte steps at the origin and on all 160 unit vectors", bounds="161 points, symbolic index",
                 timeout=1200, mem_gb=8, functions=CRC_FNS))
     if tier == "thorough":
@@ -138,6 +147,8 @@ def plan_c08(tier, seed, index):
     P.append(ob("c08_crc::c08_step_injective", "update is injective in the byte (fixed state) and in the state (fixed byte): a single altered byte changes the final checksum", bounds="all pairs", **light))
     P.append(ob("c08_crc::c08_burst4_injective", "4-byte update is injective in the data: bursts <= 4 bytes inside the checksummed region change the checksum", bounds="all states, all pairs of 4-byte strings",
                 timeout=2400, mem_gb=8, functions=CRC_FNS, core=False))
+    P.append(ob("c10_open::c10_classify_40", "a file without checksum (version byte altered to 1 or 2) is never certified: verify() = ChecksumMissing on everything that opens as version 1-2",
+                timeout=2400, mem_gb=12, functions=["fst::raw::Fst::new", "fst::raw::Fst::verify"], bounds="all byte strings <= 40 bytes", core=False))
     P.append(twin("c08_crc::c08_twin_must_fail", "vacuity twin", timeout=600, mem_gb=8))
     if tier == "thorough":
         P.append(ob("c08_file::c08_builder_trailer_empty", "real builder, empty FST, real CRC: trailer == masked reference CRC of the rest; verifies",
@@ -156,9 +167,19 @@ def plan_c09(tier, seed, index):
                     timeout=cap, mem_gb=12, functions=NODE_ENC, bounds="T=%d (as C01 codec harness)" % t))
     if tier == "thorough":
         P.append(ob("c09_layout::c09_layout_t3", "as above, 3 transitions", timeout=5400, mem_gb=16, functions=NODE_ENC, bounds="T=3", core=False))
-    P.append(ob("c09_layout::c09_header_footer_empty", "real Builder::new_type(ty)+into_inner: header version 3, type, root node bytes, key count, root address",
-                timeout=2400, mem_gb=20, functions=["fst::raw::build::Builder::{new_type,into_inner,compile}"], bounds="every type value; empty FST",
-                core=False))
+    P.append(ob("c09_layout::c09_header", "real Builder::new_type(ty): the 16 header bytes are version 3 and the requested type",
+                timeout=900, mem_gb=8, functions=["fst::raw::build::Builder::new_type"], bounds="every type value", covers_required=False))
+    if tier == "thorough":
+        P.append(ob("c09_layout::c09_header_footer_empty", "real Builder::new_type(ty)+into_inner: header version 3, type, root node bytes, key count, root address",
+                    timeout=7200, mem_gb=40, functions=["fst::raw::build::Builder::{new_type,into_inner,compile}"], bounds="every type value; empty FST",
+                    core=False))
+    P.append(ob("c01_pack::c01_pack_roundtrip", "integer packing: round trip for every u64 and width; pack_size is the documented minimal width",
+                timeout=300, mem_gb=4, functions=["fst::bytes::pack_size", "fst::bytes::pack_uint_in", "fst::bytes::unpack_uint"], bounds="all u64"))
+    P.append(ob("c01_node::c01_delta_roundtrip", "address-delta codec for every address pair (delta relative to the node's first byte; 0 = empty final)",
+                timeout=300, mem_gb=4, functions=["fst::raw::node::pack_delta", "fst::raw::node::unpack_delta"], bounds="all usize pairs"))
+    for h in generated(index, "C09"):
+        P.append(ob(h["harness"], h["desc"], timeout=1800, mem_gb=12, functions=["(independent reader only; the bytes come from the current builder)"],
+                    artifact=h["artifact"], bounds="unwind %d" % h["unwind"], core=False))
     P.append(twin("c09_layout::c09_twin_must_fail", "vacuity twin: one-trans-next form reachable", timeout=1500, mem_gb=12))
     return P
 
@@ -182,18 +203,25 @@ def plan_c11(tier, seed, index):
     P = []
     base = dict(timeout=1500, mem_gb=10)
     crc_us = [["crc32c_slice16", 0, 1], ["crc32c_slice16", 1, 10], ["write_all", 4]]
+    P.append(ob("c11_fault::c11_encoder_t0", "node encoder over the faulty sink, symbolic transition-less final node",
+                functions=NODE_ENC, bounds="T=0, every failing write call", timeout=1500, mem_gb=12, unwindset=[["write_all", 3]]))
     P.append(ob("c11_fault::c11_primitives", "u64/u32 writers and pack_uint_in over a sink failing at a symbolic call with a symbolic kind (Err(kind) or Ok(0)): Err iff the fault fired",
                 functions=["fst::bytes::io_write_u64_le", "fst::bytes::io_write_u32_le", "fst::bytes::pack_uint_in"], bounds="every failing call index, 4 error kinds + zero-length write", **base))
     P.append(ob("c11_fault::c11_counting_writer", "CountingWriter passes failures through; count == accepted bytes after a fault; flush failure surfaces",
                 functions=["fst::raw::counting_writer::CountingWriter::{write,flush}"], bounds="3-byte write_all, every failing call",
                 unwindset=crc_us, **base))
     P.append(ob("c11_fault::c11_encoder_t1", "node encoder over the faulty sink, symbolic 1-transition node: Err iff the fault fired, no panic",
-                functions=NODE_ENC, bounds="T=1, every failing write call", timeout=2400, mem_gb=12))
+                functions=NODE_ENC, bounds="T=1, every failing write call", timeout=2400, mem_gb=16, unwindset=[["write_all", 3]]))
     if tier == "thorough":
-        P.append(ob("c11_fault::c11_encoder_t2", "as above, 2 transitions", functions=NODE_ENC, bounds="T=2", timeout=5400, mem_gb=16, core=False))
-    P.append(ob("c11_fault::c11_builder_empty", "Builder::new + into_inner (empty FST) over the faulty sink incl. the final flush: Err(Io) iff a call failed; Ok only if all 39 bytes were accepted and flushed",
+        P.append(ob("c11_fault::c11_encoder_t2", "as above, 2 transitions", functions=NODE_ENC, bounds="T=2", timeout=5400, mem_gb=24, core=False,
+                    unwindset=[["write_all", 3]]))
+    P.append(ob("c11_fault::c11_builder_new", "Builder::new over the faulty sink: Err(Io) iff one of the two header writes failed",
+                functions=["fst::raw::build::Builder::new_type", "fst::error::Error::from(io::Error)"], bounds="every failing call index, both kinds",
+                timeout=900, mem_gb=12, covers_required=False, unwindset=[["crc32c_slice16", 0, 1], ["crc32c_slice16", 1, 10], ["write_all", 3]]))
+    if tier == "thorough":
+      P.append(ob("c11_fault::c11_builder_empty", "Builder::new + into_inner (empty FST) over the faulty sink incl. the final flush: Err(Io) iff a call failed; Ok only if all 39 bytes were accepted and flushed",
                 functions=["fst::raw::build::Builder::{new_type,into_inner,compile}", "fst::error::Error::from(io::Error)"],
-                bounds="every failing call index 0..8 (8 writes + flush), both kinds", timeout=3600, mem_gb=24, core=False,
+                bounds="every failing call index 0..8 (8 writes + flush), both kinds", timeout=7200, mem_gb=40, core=False,
                 unwindset=[["crc32c_slice16", 0, 1], ["crc32c_slice16", 1, 10], ["write_all", 3]]))
     P.append(twin("c11_fault::c11_twin_must_fail", "vacuity twin: a fault can fire", timeout=600, mem_gb=8))
     return P
